@@ -53,12 +53,24 @@ Definition check_obs (ta tu : table) (r : request) (ok : bool) (o : obs) : bool 
      | _, _ => false
      end.
 
+(* exactness of the guard of C33_accepted_url_reassignable on the generated inputs: for an accepted
+   http(s) URL whose host is stored ASCII and undecoded, host_wf_b holds iff the model says that
+   assigning the URL read back succeeds *)
+Definition guard_exact (ta tu : table) (r : request) : bool :=
+  if (bytes_eqb (r_scheme r) s_http || bytes_eqb (r_scheme r) s_https) && negb (r_connect r)
+     && all_ascii (r_host r)
+     && option_eqb bytes_eqb (idna_decode (lookup ta) (r_host r)) (Some (r_host r))
+  then Bool.eqb (host_wf_b (lookup ta) (r_host r)) (snd (set_url (lookup ta) (lookup tu) r (get_url r)))
+  else true.
+
 Fixpoint check_steps (ta tu : table) (r : request) (steps : list (op * obs)) : bool :=
   match steps with
   | [] => true
   | (o, ob) :: rest =>
       let '(r', ok) := step (lookup ta) (lookup tu) r o in
-      check_obs ta tu r' ok ob && check_steps ta tu r' rest
+      check_obs ta tu r' ok ob
+      && match o with SetUrl _ => if ok then guard_exact ta tu r' else true | _ => true end
+      && check_steps ta tu r' rest
   end.
 
 Definition res4_eqb (a b : bytes * bytes * Z * bytes) : bool :=
